@@ -141,6 +141,14 @@ public:
 	  {
 	    output_basename = string(1, entry.directory()) + "." + rtrim(entry.name());
 	  }
+	if (output_basename.find('/') != string::npos)
+	  {
+	    // The name would be taken as a path, which could lead
+	    // outside the destination directory.
+	    std::cerr << "cannot extract " << output_origname
+		      << ": its name contains a '/'\n";
+	    return false;
+	  }
 	const string output_body_file = dest_dir + output_basename;
 
 	std::ofstream outfile(output_body_file, std::ofstream::out);
